@@ -10,11 +10,6 @@ import PacketVerif.Lemmas.DnsLoops
 namespace PV.Props.C17Tie
 open PV PV.Model PV.Model.LoopGo PV.Model.LoopGoDns PV.Gen.LoopsDns PV.Lemmas.DnsLoops
 
-/-- map over the value of an outcome -/
-def omap {α β} (f : α → β) : Outcome α → Outcome β
-  | .ok a => .ok (f a)
-  | .err e => .err e | .panic => .panic | .hang => .hang
-
 /-- **decodeName tie, buffer included.**  For every message, every Go `int` offset, every caller buffer and every
     recursion level the function regenerated from the body of `decodeName` returns what the model's `decodeSeg`
     returns (with the model's fixed fuel): the segment is appended to the caller's buffer, the returned name is the
@@ -178,6 +173,95 @@ example : omap qView (genDecodeQuestion [0, 0, 0, 0, 0, 1, 0, 0, 0, 0, 0, 0, 1, 
     .ok ({ name := [97], qtype := 1, qclass := 1 }, 19) := by decide
 example : genDecodeQuestion [0, 0, 0, 0, 0, 2, 0, 0, 0, 0, 0, 0, 1, 97, 0, 0, 1, 0, 1] 12 [] = .err .parseFrame := by decide
 example : genDecodeQuestion [0, 0, 0] 12 [] = .err .frameLen := by decide
+
+/-- **DNS.IsValid** as regenerated by this translator (F10's `genValidDNS` is the same statement): 12 header bytes -/
+theorem isValid_tie (p : Bytes) : genDNS_IsValid p = if p.length < 12 then .err .frameLen else .ok () := by
+  unfold genDNS_IsValid
+  by_cases h : p.length < 12
+  · have : ¬ ((p.length : Int) ≥ 12) := by omega
+    simp [h, this]
+  · have : (p.length : Int) ≥ 12 := by omega
+    simp [h, this]
+
+/-- **QDCount / ANCount**: the regenerated getters are the model's `rd16 p 4` / `rd16 p 6` (panic on a short header included) -/
+theorem qdcount_tie (p : Bytes) : omap UInt16.toNat (genDNS_QDCount p) = rd16 p 4 := by
+  unfold genDNS_QDCount
+  by_cases h : 4 + 2 ≤ p.length
+  · obtain ⟨h1, h2⟩ := rdU_ok p 4 6 4 rfl rfl h
+    have e : (do let t1 ← sliceI p 4 6; let t2 ← beU16 t1; pure t2) = (sliceI p 4 6 >>= beU16) := by
+      cases sliceI p 4 6 <;> try rfl
+    rw [e, h1, h2]
+    simp only [omap, be16_toNat, be16]
+  · have e1 : sliceI p 4 6 = .panic := by
+      have : ¬ (((6 : Int)) ≤ (p.length : Int)) := by omega
+      simp [sliceI, this]
+    have e2 : rd16 p 4 = .panic := by
+      have : ¬ (6 ≤ p.length) := by omega
+      simp [rd16, slice, this]
+    rw [e1, e2]; rfl
+
+theorem ancount_tie (p : Bytes) : omap UInt16.toNat (genDNS_ANCount p) = rd16 p 6 := by
+  unfold genDNS_ANCount
+  by_cases h : 6 + 2 ≤ p.length
+  · obtain ⟨h1, h2⟩ := rdU_ok p 6 8 6 rfl rfl h
+    have e : (do let t1 ← sliceI p 6 8; let t2 ← beU16 t1; pure t2) = (sliceI p 6 8 >>= beU16) := by
+      cases sliceI p 6 8 <;> try rfl
+    rw [e, h1, h2]
+    simp only [omap, be16_toNat, be16]
+  · have e1 : sliceI p 6 8 = .panic := by
+      have : ¬ (((8 : Int)) ≤ (p.length : Int)) := by omega
+      simp [sliceI, this]
+    have e2 : rd16 p 6 = .panic := by
+      have : ¬ (8 ≤ p.length) := by omega
+      simp [rd16, slice, this]
+    rw [e1, e2]; rfl
+
+/-- **encodeName tie.**  The regenerated `encodeName` (the `for i := range name` loop with its two stores, the empty-name
+    case, the final length octet and terminator) is `Model.encodeName` for every dotted name, every caller buffer and
+    every offset: same bytes written, same returned offset, the same index-out-of-range panics when the buffer is too
+    small (`encodeName_no_panic` of C08 states when that cannot happen). -/
+theorem encodeName_tie (name data : Bytes) (offset : Nat) :
+    genEncodeName name data (offset : Int) = omap encView (Model.encodeName name data offset) := by
+  unfold genEncodeName Model.encodeName
+  have h := encLoop_eq offset name [] (name.length + 1) data 0 (by simp) (by omega)
+  simp only [List.nil_append, List.length_nil] at h
+  have h0 : ((0 : Nat) : Int) = (0 : Int) := rfl
+  rw [h0] at h
+  show (genEncodeName_loop1 name (offset : Int) (name.length + 1) data 0 0 >>= _) = _
+  rw [h]
+  cases hl : encodeNameLoop name 0 0 data offset with
+  | ok v =>
+    obtain ⟨d, l⟩ := v
+    have hle := encLoop_l_le name 0 0 data offset d l (by omega) hl
+    simp only [omap, encView, Outcome.bind_ok]
+    by_cases hn : name.length = 0
+    · have : ((name.length : Nat) : Int) = 0 := by omega
+      simp only [hn, if_true, beq_self_eq_true]
+      rw [setI_nat d _ offset _ rfl]
+      cases setIdx d offset 0 <;> simp
+    · have : ¬ (((name.length : Nat) : Int) = 0) := by omega
+      have hb : (name.length == 0) = false := by simpa using hn
+      simp only [this, hb, if_false, Bool.false_eq_true]
+      rw [setI_nat d _ (offset + name.length - l) _ (by omega), ofNat_mod256]
+      cases setIdx d (offset + name.length - l) (UInt8.ofNat l) with
+      | ok d1 =>
+        simp only [Outcome.bind_ok]
+        rw [setI_nat d1 _ (offset + name.length + 1) _ (by omega)]
+        cases setIdx d1 (offset + name.length + 1) 0 with
+        | ok d2 => simp
+        | err e => rfl
+        | panic => rfl
+        | hang => rfl
+      | err e => rfl
+      | panic => rfl
+      | hang => rfl
+  | err e => rfl
+  | panic => rfl
+  | hang => rfl
+
+/-- non-vacuity: "a.bc" into an 8-byte buffer at offset 1; a buffer that is too small panics -/
+example : genEncodeName [97, 46, 98, 99] [9, 9, 9, 9, 9, 9, 9, 9] 1 = .ok ([9, 1, 97, 2, 98, 99, 0, 9], 7) := by decide
+example : genEncodeName [97, 46, 98, 99] [9, 9, 9] 1 = .panic := by decide
 
 /-- every candidate of layer_dns.go is translated … -/
 theorem translated_accounted : dnsLoopsTranslated =
